@@ -202,6 +202,14 @@ def gen_program(seed, size=12, features=None):
         if k < 0.42:
             n = g.fresh("b")
             a, s = bool_expr(sc_, 1)
+            if r.random() < 0.3:
+                # && / || evaluate both operands: the right one prints
+                if "audit" not in g.funcs:
+                    g.funcs["audit"] = {"params": ["x", "r"], "ptys": ["i32", "bool"], "rty": "bool",
+                                        "body": [{"k": "print", "e": {"k": "var", "n": "x"}}, {"k": "ret", "e": {"k": "var", "n": "r"}}]}
+                left = a if r.random() < 0.5 else {"k": "bool", "v": r.random() < 0.5}
+                call = {"k": "call", "f": "audit", "args": [lit_ast(BYNAME["i32"], r.randint(0, 99)), {"k": "bool", "v": r.random() < 0.5}]}
+                a = {"k": "logic", "op": r.choice(["&&", "||"]), "l": left, "r": call}
             out_a.append({"k": "let", "n": n, "e": a, "dty": "bool"})
             out_s.append(pad + "let %s: bool = %s;" % (n, s))
             sc_.vars[n] = ("bool",)
